@@ -6,6 +6,7 @@ package p16
 
 import (
 	"encoding/hex"
+	"regexp"
 	"strings"
 
 	"github.com/btcsuite/btcd/address/v2/base58"
@@ -36,7 +37,13 @@ func unhx(s string) []byte {
 
 // ---------------------------------------------------------------- exec (real code)
 
-func (P) Exec(line string) string {
+// errClass strips the kind of a rejection: the property only says "rejected"; which error value a decoder returns
+// (and hence the order of its internal checks) is not part of the observation.
+var errClass = regexp.MustCompile(`err:[a-z0-9]+`)
+
+func (p P) Exec(line string) string { return errClass.ReplaceAllString(p.exec(line), "err") }
+
+func (P) exec(line string) string {
 	f := strings.Fields(line)
 	if len(f) < 2 || f[0] != "C16" {
 		return "bad-op"
